@@ -504,6 +504,10 @@ class Parser:
             self.i = nxt
             self.macros[name] = arms
             return ("splice", [], None)
+        if p == "fn":
+            fn, nxt = parse_fn(self.t, self.i)
+            self.i = nxt
+            return ("fn", fn)
         if p == "let":
             self.eat()
             mut = False
@@ -610,7 +614,8 @@ class Parser:
         if q in ASSIGN_OPS:
             self.eat()
             rhs = self.parse_expr()
-            self.eat(";")
+            if not self.done():
+                self.eat(";")
             return ("assign", e, ASSIGN_OPS[q], rhs)
         if q == ";":
             self.eat()
